@@ -103,6 +103,7 @@ inductive LockEnv
   | free     -- nobody holds the lock
   | busy     -- another descriptor holds it: `LOCK_NB` fails, the blocking `flock` in a thread returns once it is free
   | broken   -- the lock file cannot be created / opened, or `flock` raises an OSError other than EWOULDBLOCK
+  | interrupted  -- another descriptor holds it and the main task is cancelled (Ctrl-C) while the run waits
   deriving DecidableEq, Repr, Inhabited
 
 /-- a `run-*` directory below `<artifacts_base>/<command id>`: its name (directory names sort like the time they
@@ -148,6 +149,8 @@ inductive Outcome
   | escHook            -- the `UnboundLocalError` of `run_hook` left `entry_point()`
   | escDb              -- the database error left `entry_point()`
   | escArt             -- the `OSError` of `prepare_artifacts_dir` left `entry_point()` (traceback, process status 1)
+  | escLockWait        -- `CancelledError` left `entry_point()` out of `_aquire_flock` (the process ends, by SIGINT, once
+                       --   the blocked `flock` thread has got the lock)
   deriving DecidableEq, Repr, Inhabited
 
 structure MetaFile where
@@ -395,14 +398,22 @@ def St.final (st : St) (o : Outcome) : Final :=
 /-- what the run starts from -/
 def St.init (w : World) : St := { runs := w.runs, latest := w.latest }
 
-/-- `_open_lockfile` + `_aquire_flock`; `none` = OSError: `entry_point` logs it and returns `exitcodes.OSFILE` -/
-def lockPhase (w : World) (c : Cfg) (st : St) : Option St :=
+inductive LockRes
+  | ok (st : St)            -- the lock is ours
+  | failed                  -- OSError: `entry_point` logs it and returns `exitcodes.OSFILE`
+  | interrupted (st : St)   -- cancelled while waiting: the `await asyncio.to_thread(flock ...)` is outside every `try`
+  deriving Repr, Inhabited
+
+/-- `_open_lockfile` + `_aquire_flock` -/
+def lockPhase (w : World) (c : Cfg) (st : St) : LockRes :=
   if c.lock then
     match w.lock with
-    | .broken => none
-    | .busy => some { st.step with lockHeld := true, waited := true }  -- nothing else happens while it waits
-    | .free => some { st.step with lockHeld := true }
-  else some st
+    | .broken => .failed
+    | .busy => .ok { st.step with lockHeld := true, waited := true }  -- nothing else happens while it waits
+    | .free => .ok { st.step with lockHeld := true }
+    -- the helper thread keeps blocking in `flock` and takes the lock as soon as it is free; nothing releases it
+    | .interrupted => .interrupted { st.step with lockHeld := true, waited := true }
+  else .ok st
 
 /-- the name-wise last `run-*` directory (`_add_latest_link` sorts by name) -/
 def lastName : List RunDir → Option Nat
@@ -488,8 +499,9 @@ def fromPreHook (q : Quirks) (c : Cfg) (s : Script) (st : St) : Final :=
 /-- `BaseCommand.entry_point` -/
 def entryPointW (q : Quirks) (w : World) (c : Cfg) (s : Script) : Final :=
   match lockPhase w c (St.init w) with
-  | none => (St.init w).final (.ret OSFILE)     -- `return exitcodes.OSFILE`: nothing else happens
-  | some st =>
+  | .failed => (St.init w).final (.ret OSFILE)  -- `return exitcodes.OSFILE`: nothing else happens
+  | .interrupted st => st.final .escLockWait    -- the CancelledError propagates: nothing else happens
+  | .ok st =>
     match artPhase q w c st with
     | none => st.final .escArt                  -- the OSError propagates: no handler, the lock fd stays open
     | some st => fromPreHook q c s st
